@@ -318,6 +318,24 @@ Theorem C18_collapse_follower_result :
 Proof. exact C18_collapse_follower_result_l. Qed.
 Print Assumptions C18_collapse_follower_result.
 
+(* which requests may share a flight: the collapse key, for BOTH entries of the wrapper (tryCollapseRequest and
+   SendRequestAsync use the same `collapsible` test).  (1) Callers that joined the same flight entered it under the same key.
+   (2) For an injective encoding of (region, start version, async flag): two different callers whose requests enter the
+   single-flight group under the same key are both plain full-region ResolveLock requests -- no keys, no txn infos -- equal in
+   every component but the commit version (which resolveLockCollapseKey leaves out), and equal commands outright when the
+   commit version is a function of the transaction.  (3) A request that may not be collapsed (resolve lock lite, batch
+   resolve with TxnInfos) never shares a flight. *)
+Theorem C18_collapse_key_equal_commands :
+  (forall s c1 c2 f, creach s -> c_joined s c1 = Some f -> c_joined s c2 = Some f -> c_key s c1 = c_key s c2)
+  /\ (forall (kenc : nat * nat * bool -> nat), (forall a b, kenc a = kenc b -> a = b) ->
+        forall r1 r2 c1 c2, c1 <> c2 -> flight_key kenc r1 c1 = flight_key kenc r2 c2 ->
+        rc_keys r1 = [] /\ rc_txninfos r1 = [] /\ rc_keys r2 = [] /\ rc_txninfos r2 = []
+        /\ rc_region r1 = rc_region r2 /\ rc_start r1 = rc_start r2 /\ rc_isasync r1 = rc_isasync r2
+        /\ (rc_commit r1 = rc_commit r2 -> r1 = r2))
+  /\ (forall kenc r1 r2 c1 c2, collapsible r1 = false -> c1 <> c2 -> flight_key kenc r1 c1 <> flight_key kenc r2 c2).
+Proof. exact collapse_key_full. Qed.
+Print Assumptions C18_collapse_key_equal_commands.
+
 (* ---------------------------------------------------------------- non-vacuity *)
 Definition get (o : option state) : state := match o with Some s => s | None => init end.
 
@@ -448,3 +466,12 @@ Example ex_collapse : exists s, crun cinit [CJoin 1 7; CJoin 2 7; CJoin 3 8; CAb
                                             CFlightDone 1 (Resp 8); CDeliver 3] = Some s
   /\ c_call s 1 = CRet (Err ECtx) /\ c_call s 2 = CRet (Resp 7) /\ c_call s 3 = CRet (Resp 8) /\ c_nfl s = 2.
 Proof. eexists; split; [vm_compute; reflexivity|]. vm_compute. auto. Qed.
+
+(* the collapse key: a plain full-region request is collapsible, one with TxnInfos or Keys is not, whichever entry it takes;
+   two plain requests of one (region, start, async flag) get the same flight key, a TxnInfos request a key of its own *)
+Example ex_collapse_key : let kenc := fun k : nat * nat * bool => let '(a, b, c) := k in a + 100 * b + (if c then 1 else 0) * 50 in
+  let plain := mkCmd 7 30 31 false [] [] in let batch := mkCmd 7 30 31 false [(30, 1)] [] in let lite := mkCmd 7 30 31 false [] [9] in
+  collapsible plain = true /\ collapsible batch = false /\ collapsible lite = false
+  /\ flight_key kenc plain 1 = flight_key kenc plain 2 /\ flight_key kenc batch 3 <> flight_key kenc plain 1
+  /\ flight_key kenc batch 3 <> flight_key kenc batch 4.
+Proof. vm_compute. repeat split; discriminate. Qed.
